@@ -8,7 +8,7 @@ from vlib.driver import Outcome, Sub
 from vlib import shim as shimmod
 
 LEVEL = "exploration"
-RULE = ("blob: kick maps (generic both axes, RF, drift, wake), interpolation order 2..4, arbitrary displacement fields, "
+RULE = ("blob: kick maps (generic both axes, RF, drift, wake, modulated/noisy RF after 0-6 earlier steps), interpolation order 2..4, arbitrary displacement fields, "
         "particle anywhere on the grid incl. integer coordinates and edges; a non-negative blob with its centroid on the "
         "particle is built on the two neighbouring rows with masses (1-f, f); non-trivial = f in [0.05,0.95] and the two "
         "rows' offsets differ.  ingrid: sequences of 1-200 steps {wake kick, RF kick, drift, Fokker-Planck with tracking "
@@ -51,6 +51,29 @@ def build_kickmap(s, case, a, b, r):
     if kind == "drift":
         m = s.map_drift(a, b, case["slip"], 1.3e9, it)
         return m, 0, s.map_force(m, n)
+    if kind in ("dynrf_lin", "dynrf_sin"):
+        # modulated / noisy RF: the kick changes from step to step.  'pre' steps are executed first (apply, then applyTo, as
+        # the main loop does); the blob test then rides on step number 'pre'
+        def mk():
+            os.environ["INOVESA_VERIF_PRNG_SEED"] = str(case["prng"])
+            try:
+                if kind == "dynrf_lin":
+                    return s.map_dynrf_linear(a, b, case["angle"], 1e-3, 5e8, case["pspread"], case["aspread"], case["modampl"],
+                                              case["modstep"], case["pre"] + 2, it)
+                return s.map_dynrf_sin(a, b, 1e-3, case["V"], 5e8, case["V0"], case["pspread"], case["aspread"], case["modampl"],
+                                       case["modstep"], case["pre"] + 2, it)
+            finally:
+                os.environ.pop("INOVESA_VERIF_PRNG_SEED", None)
+        dry = mk()
+        for _ in range(case["pre"] + 1):
+            s.map_apply(dry)
+        offs = s.map_force(dry, n)          # only used to place the blob away from the edges and to scale the tolerance
+        m = mk()
+        p0 = np.array([[n / 2.0, n / 2.0]], np.float32)
+        for _ in range(case["pre"]):
+            s.map_apply(m)
+            s.map_apply_to(m, p0)
+        return m, 1, offs
     if kind == "wake":
         prov = np.zeros((1, n, n), np.float32)
         x = np.arange(n)
@@ -143,7 +166,7 @@ def run_blob(case):
 
 @st.composite
 def blob_cases(draw):
-    kind = draw(st.sampled_from(["kick", "kick", "rf_lin", "rf_sin", "drift", "wake"]))
+    kind = draw(st.sampled_from(["kick", "kick", "rf_lin", "rf_sin", "drift", "wake", "dynrf_lin", "dynrf_sin"]))
     n = draw(st.integers(24, 64))
     it = draw(st.sampled_from([2, 3, 4]))
     c = dict(kind=kind, n=n, it=it, dseed=draw(gen.seeds()), L=draw(st.sampled_from([4.0, 6.0])),
@@ -152,9 +175,9 @@ def blob_cases(draw):
     if kind == "kick":
         c["axis"] = draw(st.sampled_from([0, 1]))
         c["offsets"] = [gen.offset_mixture(draw, lim) for _ in range(n)]
-    elif kind == "rf_lin":
+    elif kind in ("rf_lin", "dynrf_lin"):
         c["angle"] = gen.f32(draw(st.floats(1e-3, 0.15)))
-    elif kind == "rf_sin":
+    elif kind in ("rf_sin", "dynrf_sin"):
         dp = 2 * c["L"] / (n - 1)
         c["qscale"] = gen.f32(draw(st.floats(1e-3, 2e-2)))
         c["V"] = gen.f32(draw(st.floats(0.2, 3.0)) * dp * 6.11e5 / 1e-3)
@@ -162,7 +185,15 @@ def blob_cases(draw):
     elif kind == "drift":
         th = draw(st.floats(1e-3, 0.15))
         c["slip"] = [gen.f32(th), gen.f32(th * draw(st.floats(-0.05, 0.05))), 0.0]
-    else:
+    if kind in ("dynrf_lin", "dynrf_sin"):
+        mode = draw(st.sampled_from(["mod", "noise", "both"]))
+        c["modampl"] = gen.f32(draw(st.floats(1e-3, 0.02 if kind == "dynrf_lin" else 0.5))) if mode != "noise" else 0.0
+        c["modstep"] = float(draw(st.floats(0.01, 0.2))) if mode != "noise" else 0.0
+        c["pspread"] = gen.f32(draw(st.floats(1e-4, 5e-3 if kind == "dynrf_lin" else 0.1))) if mode != "mod" else 0.0
+        c["aspread"] = gen.f32(draw(st.floats(1e-5, 1e-2))) if mode == "both" else 0.0
+        c["pre"] = draw(st.integers(0, 6))
+        c["prng"] = draw(st.integers(1, 2**31 - 1))
+    if kind == "wake":
         c["N"] = draw(st.sampled_from(gen.npool_at_least(n, 512)))
         c["amp"] = gen.f32(draw(st.floats(0.2, 3.0)))
     pos_kind = draw(st.sampled_from(["any"] * 9 + ["integer", "edge0", "edgeN", "near"]))
